@@ -550,7 +550,17 @@ def gen_ctor_grid():
     return cases
 
 
-GENS = dict(rawlru=gen_rawlru, rawfrom=gen_rawfrom, slru=gen_slru, twoq=gen_twoq, arc=gen_arc,
+def gen_wtsizes(r, cid, nops, opts):
+    w, q, p = r.rng(1, 6), r.rng(1, 6), r.rng(1, 6)
+    via = r.pick(["withsizes", "builder", "buildernew", "frombuilder"])
+    lines = ["case %d wtsizes wcap=%d qcap=%d pcap=%d samples=%d via=%s" % (cid, w, q, p, r.rng(1, 9), via)]
+    for _ in range(min(nops, 7)):
+        lines.append(r.pick(["cap", "len", "wcap", "mcap", "isempty", "wlen", "mlen"]))
+    lines.append("end")
+    return lines
+
+
+GENS = dict(wtsizes=gen_wtsizes, rawlru=gen_rawlru, rawfrom=gen_rawfrom, slru=gen_slru, twoq=gen_twoq, arc=gen_arc,
             wtinylfu=gen_wtinylfu, tinylfu=gen_tinylfu, sampled=gen_sampled)
 
 
